@@ -91,6 +91,73 @@ def subgroups(D: int) -> dict[str, list[np.ndarray]]:
     return out
 
 
+_ALL_SUB = {}
+
+
+def all_subgroups(D: int) -> dict[str, list[np.ndarray]]:
+    """Every subgroup of B_d (10 for d=2, 98 for d=3), found by closing generator sets under the multiplication table until no
+    new subgroup appears; named S<d>_<order>_<n> (n numbers the subgroups of one order), with the conjugacy class in `sub_class`."""
+    if D in _ALL_SUB:
+        return _ALL_SUB[D][0]
+    B = hyperoctahedral(D)
+    n = len(B)
+    idx = {key(g): i for i, g in enumerate(B)}
+    mul = np.array([[idx[key(a @ b)] for b in B] for a in B])
+    e = idx[key(np.eye(D, dtype=int))]
+
+    def close(gens):
+        S = {e} | set(gens)
+        frontier = list(S)
+        while frontier:
+            new = []
+            for a in frontier:
+                for b in list(S):
+                    for c in (mul[a, b], mul[b, a]):
+                        if c not in S:
+                            S.add(int(c))
+                            new.append(int(c))
+            frontier = new
+        return frozenset(S)
+
+    found = {close([])}
+    frontier = list(found)
+    while frontier:
+        new = []
+        for S in frontier:
+            for c in range(n):
+                if c not in S:
+                    T = close(list(S) + [c])
+                    if T not in found:
+                        found.add(T)
+                        new.append(T)
+        frontier = new
+    inv = [int(np.where(mul[i] == e)[0][0]) for i in range(n)]
+    subs = sorted(found, key=lambda S: (len(S), sorted(S)))
+    out, cls, count = {}, {}, {}
+    for S in subs:
+        count[len(S)] = count.get(len(S), 0) + 1
+        name = f"S{D}_{len(S)}_{count[len(S)]}"
+        out[name] = [B[i] for i in sorted(S)]
+        cls[name] = min(tuple(sorted(int(mul[mul[h, g], inv[h]]) for g in S)) for h in range(n))
+    _ALL_SUB[D] = (out, cls)
+    return out
+
+
+def sub_class_reps(D: int) -> list[str]:
+    """One subgroup name per conjugacy class of subgroups of B_d."""
+    all_subgroups(D)
+    seen, reps = set(), []
+    for name, c in _ALL_SUB[D][1].items():
+        if c not in seen:
+            seen.add(c)
+            reps.append(name)
+    return reps
+
+
+def group_named(D: int, name: str) -> list[np.ndarray]:
+    return all_subgroups(D)[name] if name.startswith("S") and "_" in name else subgroups(D)[name]
+
+
 def conjugacy_class_reps(D: int) -> list[np.ndarray]:
     B = hyperoctahedral(D)
     seen, reps = set(), []
@@ -118,6 +185,9 @@ def selftest() -> dict:
         for name, G in subgroups(D).items():
             assert is_group(G), (D, name)
         res[f"B{D}"] = len(B)
+    assert len(all_subgroups(2)) == 10 and len(sub_class_reps(2)) == 8
+    assert len(all_subgroups(3)) == 98 and len(sub_class_reps(3)) == 33
+    assert all(is_group(G) for G in all_subgroups(3).values())
     assert len(conjugacy_class_reps(2)) == 5 and len(conjugacy_class_reps(3)) == 10
     g = np.array([[0, -1], [1, 0]])
     assert transport(g, (5, 7)) == (7, 5)
